@@ -25,6 +25,8 @@ type c19Frame struct {
 	args   map[types.Object]ast.Expr // value parameters -> argument expression (in the parent frame)
 	parent *c19Frame
 	depth  int
+	// pointer parameters bound by value (c19BindByValue)
+	ptrBinds []c19PtrBind
 }
 
 var (
